@@ -18,6 +18,15 @@ UNITS = [
                  "constructor vs properties, optional defaults, type shapes, invariant descriptions, documentation "
                  "references, pattern anchoring, constant sets) of one base meta-model; the base model must be accepted",
            args={}),
+    # C01 as a whole: parse/_translate.py (4 000 lines) and intermediate/_translate.py (5 000 lines) are covered only by
+    # *assumed* contracts at the level of load_model (contracts/core.py); this sweep is the bounded evidence behind
+    # that assumption: it found 18 crashes on the pinned tree (all repaired, see known_findings.json).
+    Native("line- and token-level mutants of valid meta-models never crash the front end", ["C01"],
+           "native.c01:mutation_sweep", kind="bounded",
+           bound="every single-edit mutant (delete / duplicate / swap adjacent lines; replace each NAME, STRING, NUMBER, "
+                 "OP token by 2-8 alternatives) of the base meta-model of native/c06.py and of the 120 recorded "
+                 "meta-models under dev/test_data (< 6 kB each): ~39 000 mutants through run.load_model; exhaustive "
+                 "for that edit set", args={"with_recorded": True}, timeout_s=1800),
     Native("every small structured flow against its linearization", ["C26"], "native.c26:bounded", kind="bounded",
            bound="every flow of <= 4 (thorough: 5) nodes, nesting <= 3, over Command / Yield / IfTrue / IfFalse (with, "
                  "without and with empty else) / For (with, without init) / While (bodies may be empty) x all 2^5 "
